@@ -320,6 +320,8 @@ _ASAN_MIN = {"on": 0}
 
 
 def still_fails(prop, proj, seeds, w, d, sig, extra=None):
+    if extra is not None:
+        extra["left"] -= 1
     runs, _ = explore_project(prop, proj, seeds, w, d, want_seq=True, want_exec=(prop == "C20"),
                               asan_every=_ASAN_MIN.get(id(proj), 0) or proj.get("_asan", 0))
     bad = judge(prop, proj, runs)
@@ -329,7 +331,9 @@ def still_fails(prop, proj, seeds, w, d, sig, extra=None):
 def minimise(prop, proj, seeds, bad, w, d, budget_s=120):
     """shrink the failing project (drop modules, then lines) and the schedule-seed list while
     the same violation class persists; deterministic given its inputs"""
-    t_end = time.time() + budget_s
+    # budgets are counts of builds, never wall-clock: the outcome of a check must not depend on
+    # how loaded the machine is
+    budget = {"left": budget_s}
     sig = signature(prop, proj, bad)
     if any(b.get("run") == "swarm_asan" for b in bad):
         proj = dict(proj, _asan=1)       # the failure needs the sanitizer build: use it for every schedule
@@ -416,10 +420,10 @@ def minimise(prop, proj, seeds, bad, w, d, budget_s=120):
         return False
 
     changed = True
-    while changed and time.time() < t_end:
+    while changed and budget["left"] > 0:
         changed = False
         for f, idxs, name in units(cur):
-            if time.time() > t_end:
+            if budget["left"] <= 0:
                 break
             if referenced(cur, f, idxs, name):
                 continue
@@ -428,7 +432,7 @@ def minimise(prop, proj, seeds, bad, w, d, budget_s=120):
             q["files"][f] = "\n".join(l for k, l in enumerate(lines) if k not in idxs)
             q["expect"] = {"result": None}
             q = drop_unimported(q)
-            ok, b2 = still_fails(prop, q, seeds, w, d, sig)
+            ok, b2 = still_fails(prop, q, seeds, w, d, sig, budget)
             if ok:
                 cur, bad, changed = q, b2, True
                 break
@@ -441,14 +445,14 @@ def minimise(prop, proj, seeds, bad, w, d, budget_s=120):
                     continue
                 terms = l[len("result: Int = "):].split(" + ")
                 for ti in range(len(terms)):
-                    if len(terms) <= 1 or time.time() > t_end:
+                    if len(terms) <= 1 or budget["left"] <= 0:
                         break
                     q = json.loads(json.dumps(cur))
                     ls = q["files"][f].split("\n")
                     ls[k] = "result: Int = " + " + ".join(t for j, t in enumerate(terms) if j != ti)
                     q["files"][f] = "\n".join(ls)
                     q["expect"] = {"result": None}
-                    ok, b2 = still_fails(prop, q, seeds, w, d, sig)
+                    ok, b2 = still_fails(prop, q, seeds, w, d, sig, budget)
                     if ok:
                         cur, bad, changed = q, b2, True
                         break
@@ -545,7 +549,7 @@ def run_check(prop, tier, seed, replay=None):
     nproj, k = TIERS[prop][tier]
     asan_every = 4 if (tier == "thorough" and build_asan()) else 0
     pool = Pool(prop.lower())
-    wall_cap = t0 + (600 if tier == "quick" else 3600)
+    wall_cap = t0 + (2400 if tier == "quick" else 9000)
     try:
         results = pool.map(lambda idx, w, d: explore_one(prop, seed, idx, k, w, d, asan_every),
                            list(range(nproj)), deadline=wall_cap)
@@ -564,7 +568,7 @@ def run_check(prop, tier, seed, replay=None):
         def mini(r, w, d):
             seeds = schedule_seeds(seed, prop, r["idx"], k)
             proj, seeds2, bad, sig = minimise(prop, r["proj"], seeds, r["bad"], w, d,
-                                             budget_s=60 if tier == "quick" else 180)
+                                             budget_s=150 if tier == "quick" else 400)
             return {"idx": r["idx"], "proj": proj, "seeds": seeds2, "bad": bad, "sig": sig,
                     "orig_shape": r["proj"]["shape"]}
         minis = pool.map(mini, failing[:64])
